@@ -44,10 +44,11 @@ def gen_voices(rng, G, n, tags):
 def gen(seed, index):
     rng = rng_for(PID, seed, index)
     if rng.random() < 0.4:
-        kind = rng.choice(["add", "add", "index", "index", "tag", "tag", "topindex", "unmatched_index", "unmatched_tag"])
+        kind = rng.choice(["add", "add", "index", "index", "tag", "tag", "topindex", "unmatched_index", "unmatched_tag",
+                           "chain_index", "chain_tag", "self_index"])
         unit = rng.choice([2500000000, 10000000000, 5000000000])
         da, db = rng.randint(1, 6) * unit, rng.randint(1, 6) * unit
-        if rng.random() < 0.08 and not kind.startswith("unmatched"):
+        if rng.random() < 0.08 and not kind.startswith(("unmatched", "chain", "self")):
             da = 0          # an empty first operand (or one holding only zero-length events) that still carries a tempo
 
         def tempo(d):
@@ -123,15 +124,15 @@ def oracle_history(case, io):
 
 
 def model_case(case):
-    if case[0] == "jointempo" and case[1].startswith("unmatched"):
-        return ["jointempo", "index"] + case[2:]      # the model has no unmatched voices: decided by the oracle alone
+    if case[0] == "jointempo" and case[1].startswith(("unmatched", "chain", "self")):
+        return ["jointempo", "index"] + case[2:]      # outside the single-join model: decided by the oracle alone
     return case
 
 
 def compare(case, mo, io):
     if case[0] == "hist":
         return compare_history(case, mo, io)
-    if case[0] == "jointempo" and case[1].startswith("unmatched"):
+    if case[0] == "jointempo" and case[1].startswith(("unmatched", "chain", "self")):
         return None
     if case[0] == "jointempo":
         if is_err(mo) or is_err(io):
